@@ -18,9 +18,9 @@ RULE = ("case = (regularizer kind, lattice shape/units or PWL rows/cyclic, scala
         "incl. the vanishing families: constant, additively separable, index-linear, index-quadratic); "
         "non-trivial = oracle value > 0 or the case is a must-vanish case; distinct by digest of (config, kernel)")
 MIN_EVENTS = {
-    "quick": {"regularizer/oracle-equal": 800, "regularizer/linear-in-l1-l2": 250, "regularizer/vanishes": 150,
+    "quick": {"layer.losses/oracle-equal-after-config-round-trip": 60, "regularizer/oracle-equal": 800, "regularizer/linear-in-l1-l2": 250, "regularizer/vanishes": 150,
               "layer.losses/oracle-equal": 40},
-    "thorough": {"regularizer/oracle-equal": 30000, "regularizer/linear-in-l1-l2": 10000, "regularizer/vanishes": 6000,
+    "thorough": {"layer.losses/oracle-equal-after-config-round-trip": 1800, "regularizer/oracle-equal": 30000, "regularizer/linear-in-l1-l2": 10000, "regularizer/vanishes": 6000,
                  "layer.losses/oracle-equal": 1500},
 }
 ASSUMPTIONS = ["values compared with tol = 2e-5*max(1, U) where U bounds the sum of absolute operands of the penalty (float32 summation)",
